@@ -41,6 +41,7 @@ import (
 
 	"verifharness/gen/connmain"
 	"verifharness/mnt"
+	"verifharness/osvc"
 	"verifharness/world"
 )
 
@@ -73,6 +74,7 @@ type MW struct {
 	crashMode string            // "", "after", "before": the running call is a pass that gets killed in CommitTx
 	crashSnap *statusSnap       // the status file at the moment of the kill
 	Infra     string            // non-empty: the environment (not the code under test) failed
+	orc       *osvc.Svc         // the oracle service environment (created on first use)
 }
 
 func mx(addr string) string { return "Mx" + strings.ToLower(strings.TrimPrefix(addr, "0x")) }
@@ -160,6 +162,9 @@ func NewWith(cfg world.Cfg, evmChain string, out io.Writer) (*MW, error) {
 }
 
 func (mw *MW) Close() {
+	if mw.orc != nil {
+		mw.orc.Close()
+	}
 	mw.http.Close()
 	mw.gsrv.Stop()
 	os.RemoveAll(mw.dir)
@@ -594,6 +599,16 @@ func (mw *MW) Exec(i int, a world.Act) {
 		res["subs"] = subs
 		res["outs"] = mw.outs
 		mw.stepLine(i, a, res)
+	case "OrcRelay": // a pass of the real oracle service of a validator (prices / holders feed into the hub's fee arithmetic)
+		if mw.orc == nil {
+			s, err := osvc.New(w, mw.emit)
+			if err != nil {
+				mw.Infra = "oracle service: " + err.Error()
+				return
+			}
+			mw.orc = s
+		}
+		mw.orc.Relay(i, a)
 	default:
 		o := w.Exec(a)
 		line := J{"k": "step", "i": i, "act": w.Canon(a), "res": o, "post": mw.Project()}
